@@ -2,7 +2,11 @@
  * (compiled with -DPIXMAN_VERIF -DPIXMAN_VERIF_GLYPH_HIGH_WATER=h -DPIXMAN_VERIF_GLYPH_LOW_WATER=l
  * for small tables), so that counters and table slots are observable.
  *   glyph exec <ops_in> <impl_out>
- * one history per line:  hist <hashsize> <high> <low> F T I:f:k L:f:k R:f:k U:f:k ...
+ * one history per line:  hist <hashsize> <high> <low> F T I:f:k L:f:k R:f:k U:f:k X:f:k ...
+ * X:f:k = an insertion that the cache cannot honour: the image is a 2^28-pixel-wide a8r8g8b8 bits
+ * image over caller storage (legal to describe), whose private copy pixman_image_create_bits
+ * (format, 1<<28, 1, NULL, -1) cannot be allocated (width * bpp overflows) -- the same failure path
+ * as a failing malloc of the copy, reached through the public API.
  * A lookup that does not terminate is observed through an CPU-time interval timer ("H | HANG"). */
 #include "pixman-glyph.c"
 #include <stdio.h>
@@ -29,6 +33,9 @@ int main(int argc,char**argv)
     pixman_image_t *img=pixman_image_create_bits(PIXMAN_a8,1,1,px,4);
     static uint32_t dpx[16];
     pixman_image_t *dst=pixman_image_create_bits(PIXMAN_a8r8g8b8,2,2,dpx,8);
+    static uint32_t hugepx[4];
+    pixman_image_t *huge=pixman_image_create_bits(PIXMAN_a8r8g8b8,1<<28,1,hugepx,4);
+    if(!img||!huge){ fprintf(stderr,"glyph: setup failed\n"); return 2; }
     pixman_color_t white={0xffff,0xffff,0xffff,0xffff};
     pixman_image_t *src=pixman_image_create_solid_fill(&white);
     static char buf[1<<16];
@@ -50,6 +57,7 @@ int main(int argc,char**argv)
                 case 'F': pixman_glyph_cache_freeze(c); fputc('-',fo); break;
                 case 'T': pixman_glyph_cache_thaw(c); fputc('-',fo); break;
                 case 'I': { const void *g=pixman_glyph_cache_insert(c,(void*)f,(void*)k,0,0,img); if(g){ for(int q=0;q<MAXOPS;q++) if(ids[q]==g) ids[q]=NULL; /* address reuse */ ids[opi]=(glyph_t*)g; fprintf(fo,"I%d",opi);} else fputc('N',fo); break; }
+                case 'X': { const void *g=pixman_glyph_cache_insert(c,(void*)f,(void*)k,0,0,huge); if(g){ for(int q=0;q<MAXOPS;q++) if(ids[q]==g) ids[q]=NULL; ids[opi]=(glyph_t*)g; fprintf(fo,"I%d",opi);} else fputc('N',fo); break; }
                 case 'L': { const void *g=pixman_glyph_cache_lookup(c,(void*)f,(void*)k); if(g) fprintf(fo,"L%d",id_of(g)); else fprintf(fo,"L-"); break; }
                 case 'R': pixman_glyph_cache_remove(c,(void*)f,(void*)k); fputc('-',fo); break;
                 case 'U': { const void *g=pixman_glyph_cache_lookup(c,(void*)f,(void*)k); if(g){ pixman_glyph_t pg={0,0,g}; pixman_composite_glyphs_no_mask(PIXMAN_OP_OVER,src,dst,0,0,0,0,c,1,&pg);} fputc('-',fo); break; }
